@@ -203,7 +203,11 @@ impl<'a> Chunks<'a> {
     #[verifier::external_body]
     pub fn of4(a: &'a [u8], b: &'a [u8], c: &'a [u8], d: &'a [u8]) -> (r: Chunks<'a>) ensures r.flat() == a@ + b@ + c@ + d@ { unimplemented!() }
     #[verifier::external_body]
-    pub fn from_array<const N: usize>(a: &'a [&'a [u8]; N]) -> (r: Chunks<'a>) ensures r.flat() == flat_of(a@) { unimplemented!() }
+    pub fn from_array<const N: usize>(a: &'a [&'a [u8]; N]) -> (r: Chunks<'a>)
+        ensures
+            // unrolled form for the one array length the crate uses (hkdf label pieces)
+            N == 6 ==> r.flat() == a@[0]@ + a@[1]@ + a@[2]@ + a@[3]@ + a@[4]@ + a@[5]@,
+    { unimplemented!() }
     #[verifier::external_body]
     pub fn chain(self, other: Chunks<'a>) -> (r: Chunks<'a>) ensures r.flat() == self.flat() + other.flat() { unimplemented!() }
     #[verifier::external_body]
@@ -687,8 +691,9 @@ pub struct Input<'a, L1: ArrayLength<u8>, L2: ArrayLength<u8> = U0, L3: ArrayLen
 impl<'a, L1: ArrayLength<u8>, L2: ArrayLength<u8>, L3: ArrayLength<u8>> Input<'a, L1, L2, L3> {
     /// the payload (for a label: opaque || label)
     pub uninterp spec fn data(&self) -> Seq<u8>;
-    /// for labels: the first of the two pieces
+    /// for labels: the two pieces (data() == data0() + data1())
     pub uninterp spec fn data0(&self) -> Seq<u8>;
+    pub uninterp spec fn data1(&self) -> Seq<u8>;
     #[verifier::external_body]
     pub fn from(input: &'a [u8]) -> (r: Result<Input<'a, L1, L2>, ProtocolError>)
         ensures
@@ -708,7 +713,7 @@ impl<'a, L1: ArrayLength<u8>, L2: ArrayLength<u8>, L3: ArrayLength<u8>> Input<'a
     pub fn from_label(opaque: &'a [u8], label: &'a [u8]) -> (r: Result<Input<'a, L1, U0, U2>, ProtocolError>)
         ensures
             r is Ok <==> fits(opaque@.len() + label@.len(), L1::n()),
-            r is Ok ==> r->Ok_0.data() == opaque@ + label@ && r->Ok_0.data0() == opaque@,
+            r is Ok ==> r->Ok_0.data() == opaque@ + label@ && r->Ok_0.data0() == opaque@ && r->Ok_0.data1() == label@,
             r is Err ==> r->Err_0 == ProtocolError::<Infallible>::SerializationError,
     { unimplemented!() }
     #[verifier::external_body]
@@ -725,7 +730,7 @@ impl<'a, L1: ArrayLength<u8>, L2: ArrayLength<u8>> Input<'a, L1, L2, U0> {
 impl<'a, L1: ArrayLength<u8>, L2: ArrayLength<u8>> Input<'a, L1, L2, U2> {
     #[verifier::external_body]
     pub fn to_array_3(&self) -> (r: [&[u8]; 3])
-        ensures r@[0]@ == i2osp(self.data().len(), L1::n()), r@[1]@ == self.data0(), r@[1]@ + r@[2]@ == self.data()
+        ensures r@[0]@ == i2osp(self.data().len(), L1::n()), r@[1]@ == self.data0(), r@[2]@ == self.data1()
     { unimplemented!() }
 }
 
@@ -741,3 +746,11 @@ pub broadcast proof fn seq_empty_r(a: Seq<u8>)
 { assert((a + Seq::<u8>::empty()) =~= a); }
 pub broadcast group seq_norm { seq_assoc, seq_empty_l, seq_empty_r }
 pub broadcast group ga_axioms { axiom_ga_len, axiom_ga_ext, axiom_ga_of_seq }
+pub broadcast proof fn seq_subrange_subrange(s: Seq<u8>, a: int, b: int, c: int, d: int)
+    requires 0 <= a <= b <= s.len(), 0 <= c <= d <= b - a,
+    ensures #[trigger] s.subrange(a, b).subrange(c, d) == s.subrange(a + c, a + d)
+{ assert(s.subrange(a, b).subrange(c, d) =~= s.subrange(a + c, a + d)); }
+pub broadcast proof fn seq_subrange_full(s: Seq<u8>)
+    ensures #[trigger] s.subrange(0, s.len() as int) == s
+{ assert(s.subrange(0, s.len() as int) =~= s); }
+pub broadcast group seq_sub { seq_subrange_subrange, seq_subrange_full }
